@@ -9,13 +9,14 @@ import (
 	"strconv"
 	"strings"
 
+	"golang.org/x/tools/go/packages"
 	"golang.org/x/tools/go/ssa"
 )
 
 func init() {
 	register(&propDef{
 		ID:          "C03",
-		Explanation: "Decides that the escaping tables and the routing into them are complete and correctly selected — not the behaviour of a JavaScript engine on the output: R1 the replacement tables applied inside string literals (the per-call table, the low-unicode table and the explicit switch arms of the escaper, all constant-evaluated from the source) map every code point of the required set — U+0000–U+001F, \" ' ` \\, < > &, U+2028, U+2029 and $ (the template-literal interpolation opener, because backtick literals use the same escaper) — to a replacement that does not contain the code point and is an escape of that same code point; R2 no non-test code in the module calls SetEscapeHTML, so every JSON encoder feeding a script position keeps encoding/json's HTML-safe escaping; R3 in SafeScript/SafeScriptInline the function name is used only after the name-pattern test replaced invalid names by a constant, the pattern's alphabet is within [$_a-zA-Z0-9.], every argument is written as jsonEncodeParam(arg) (and through the HTML escaper for the attribute form), JSFuncCall uses SafeScript and JSUnsafeFuncCall HTML-escapes its call; R4 the generator emits the in-literal escaper exactly on the branch where the script content is marked InsideStringLiteral, the sink writes the variable defined by that call, and the parser passes `delimiter != none` as that mark with the three JS quote characters as delimiters; R5 in the runtime selector both in-literal returns go through the replacement table and the bare return is the JSON encoding. NOT decided: that evaluating the emitted JavaScript yields an equal value; the parser's quote tracking on arbitrary JS (regex literals, comments in strings).",
+		Explanation: "Decides that the escaping tables and the routing into them are complete and correctly selected — not the behaviour of a JavaScript engine on the output: R1 the replacement tables applied inside string literals (the per-call table, the low-unicode table and the explicit switch arms of the escaper, all constant-evaluated from the source) map every code point of the required set — U+0000–U+001F, \" ' ` \\, < > &, / (a value starting with /script after a literal < in the author's own script text would otherwise end the element), U+2028, U+2029 and $ (the template-literal interpolation opener, because backtick literals use the same escaper) — to a replacement that does not contain the code point and is an escape of that same code point; R2 no non-test code in the module calls SetEscapeHTML, so every JSON encoder feeding a script position keeps encoding/json's HTML-safe escaping; R3 in SafeScript/SafeScriptInline the function name is used only after the name-pattern test replaced invalid names by a constant, the pattern's alphabet is within [$_a-zA-Z0-9.], every argument is written as jsonEncodeParam(arg) (and through the HTML escaper for the attribute form), JSFuncCall uses SafeScript and JSUnsafeFuncCall HTML-escapes its call; R4 the generator emits the in-literal escaper exactly on the branch where the script content is marked InsideStringLiteral, the sink writes the variable defined by that call, and the parser passes `delimiter != none` as that mark with the three JS quote characters as delimiters; R5 in the runtime selector both in-literal returns go through the replacement table and the bare return is the JSON encoding. NOT decided: that evaluating the emitted JavaScript yields an equal value; the parser's quote tracking on arbitrary JS (regex literals, comments in strings).",
 		Assumptions: []string{"encoding/json escapes < > & U+2028 U+2029 unless SetEscapeHTML(false)", "a JS engine decodes \\uXXXX, \\t \\n \\f \\r \\\\ \\/ inside string and template literals to the named code point"},
 		Trusted:     []string{"go/types", "go/parser", "x/tools go/packages, go/ssa", "encoding/json", "regexp/syntax"},
 		Run:         runC03,
@@ -124,7 +125,7 @@ func runC03(c *Ctx) {
 		for r := rune(0); r <= 0x1f; r++ {
 			required = append(required, r)
 		}
-		required = append(required, '"', '\'', '`', '\\', '<', '>', '&', '$', 0x2028, 0x2029)
+		required = append(required, '"', '\'', '`', '\\', '<', '>', '&', '$', '/', 0x2028, 0x2029)
 		short := map[string]rune{`\t`: '\t', `\n`: '\n', `\f`: '\f', `\r`: '\r', `\\`: '\\', `\/`: '/', `\b`: '\b', `\v`: '\v'}
 		for _, r := range required {
 			key := fmt.Sprintf("%s|js-escape:U+%04X", funcKey(rp, esc), r)
@@ -142,7 +143,7 @@ func runC03(c *Ctx) {
 					good = true
 				}
 			}
-			if strings.ContainsRune(repl, r) && r != '\\' {
+			if _, isShort := short[repl]; !isShort && strings.ContainsRune(repl, r) {
 				good = false
 			}
 			c.check(good, "C03.R1", key, c.pos(esc.Pos()), fmt.Sprintf("%q → %s", string(r), repl),
@@ -212,6 +213,53 @@ func runC03(c *Ctx) {
 	// R3 ------------------------------------------------------------
 	f := c.flow()
 	sp := c.ssaPkg(".")
+	// the argument encoder: every returned value is the JSON encoding, or the explicitly typed raw JSExpression
+	if enc := sp.Func("jsonEncodeParam"); enc != nil {
+		bad := ""
+		nret := 0
+		for _, b := range enc.Blocks {
+			for _, ins := range b.Instrs {
+				ret, ok := ins.(*ssa.Return)
+				if !ok || len(ret.Results) != 1 {
+					continue
+				}
+				nret++
+				for _, l := range flatten(f.classify(ret.Results[0])) {
+					switch {
+					case l.Kind == "CALL" && strings.HasPrefix(l.Info, "encoding/json.Marshal#"):
+					case l.Kind == "DYN" && l.Info == "type-assert result":
+						// must be the JSExpression assertion: checked on the AST below
+					default:
+						bad = l.String()
+					}
+				}
+			}
+		}
+		// the only type the encoder singles out is JSExpression
+		if fd := findFunc(tp0(c), "", "jsonEncodeParam"); fd != nil {
+			ast.Inspect(fd.Body, func(n ast.Node) bool {
+				switch x := n.(type) {
+				case *ast.TypeAssertExpr:
+					if x.Type != nil && types.ExprString(x.Type) != "JSExpression" {
+						bad = "type assertion to " + types.ExprString(x.Type)
+					}
+				case *ast.CaseClause:
+					for _, e := range x.List {
+						if t := types.ExprString(e); t != "JSExpression" && t != "nil" {
+							if _, isType := tp0(c).TypesInfo.Types[e]; isType && tp0(c).TypesInfo.Types[e].IsType() {
+								bad = "a special case for " + t
+							}
+						}
+					}
+				}
+				return true
+			})
+		}
+		c.check(bad == "" && nret >= 2, "C03.R3", modPath+".jsonEncodeParam|returns-json-or-typed-raw", c.pos(enc.Pos()), "every return is string(json.Marshal(param)) or the explicitly typed JSExpression",
+			"jsonEncodeParam returns something other than the JSON encoding ("+bad+"): e.g. strconv.Quote does not escape < > & U+2028 and uses Go-only escapes (\\a, \\U000e0001, \\xe9) that JavaScript reads as different characters")
+	} else {
+		c.viol("C03.R3", "anchor-lost:jsonEncodeParam", "", "the argument encoder used by SafeScript/SafeScriptInline was not found")
+	}
 	pat, okPat := "", false
 	var patVar string
 	for _, nm := range tp.Types.Scope().Names() {
@@ -639,3 +687,5 @@ func mentionsBoolParam(v ssa.Value, depth int) bool {
 	}
 	return false
 }
+
+func tp0(c *Ctx) *packages.Package { return c.pkg(".") }
